@@ -81,7 +81,15 @@ func c12Liquidity(t *testing.T, rec *ev.Rec) {
 					// cancel-all / MM cancel are keyed by the sender: a non-owner's message must not touch the owner's orders
 					before := len(w.liveOrders(app))
 					for _, x := range othersOf(c, owner, 2) {
+						// without a pair list, naming the owner's pair, naming every pair of the app
 						c.Deliver(x, liqtypes.NewMsgCancelAllOrders(app, x.Addr, nil))
+						c.Deliver(x, liqtypes.NewMsgCancelAllOrders(app, x.Addr, []uint64{o.PairId}))
+						var all []uint64
+						for _, pr := range c.App.LiquidityKeeper.GetAllPairs(c.Ctx(), app) {
+							all = append(all, pr.Id)
+						}
+						c.Deliver(x, liqtypes.NewMsgCancelAllOrders(app, x.Addr, all))
+						rec.Count("cancel_all_by_others_naming_the_owners_pair", 1)
 						c.Deliver(x, liqtypes.NewMsgCancelMMOrder(app, x.Addr, o.PairId))
 					}
 					rec.Eval(1)
